@@ -166,6 +166,7 @@ def spine_a(ctx, active, n_units, n_values, n_fuzz):
         ctx.evaluations += 1
         ctx.count('reject:' + p.gen[0])
         A.judge(ctx, p, report)
+    return preps
 
 
 def replay(ctx):
@@ -203,24 +204,36 @@ def run(ctx):
                 'non-trivial = every case (each is a compiled-code execution compared with the Python codec)')
     ctx.level = 'proof'
     try:
+        import random
+        from concurrent.futures import ThreadPoolExecutor
         import c09_helpers
-        parsed = c09_helpers.regenerate(ctx)          # coq/gen/UperHelpers.v from /repo, before the build
-        ok = ctx.coq_props()
-        ctx.log('Coq: Props/C09.v built and audited (%s)' % ('ok' if ok else 'BROKEN'))
-        if parsed is not None:
-            c09_helpers.run(ctx, parsed)
-            ctx.log('helpers: compiled helper block vs Coq model done')
+        import c09_ir
+        parsed = c09_helpers.regenerate(ctx)          # coq/gen/UperHelpers*.v from /repo, before the build
+        # The Coq build, the two helper correspondences and the compile-and-run spine are independent:
+        # run them side by side (each with its own deterministic random stream).
+        ex = ThreadPoolExecutor(max_workers=3)
+        f_props = ex.submit(ctx.coq_props)
+        f_help = ex.submit(c09_helpers.run, ctx, parsed, random.Random(ctx.seed * 7919 + 1)) if parsed is not None else None
+        f_hir = ex.submit(c09_ir.helpers_vs_model, ctx, 60 if ctx.quick else 600, random.Random(ctx.seed * 7919 + 2))
         findings = common.load_findings('C09')
         active = run_findings(ctx, findings, ctx.rng)
         ctx.log('known findings replayed: %d of %d still reproduce' % (len(active), len(findings)))
         ctx.extra['regions_excluded'] = active
         A.ACTIVE = set(active)
         if ctx.quick:
-            spine_a(ctx, active, 40, 3, 14)
+            preps = spine_a(ctx, active, 40, 3, 14)
         else:
-            spine_a(ctx, active, 420, 6, 60)
-        import c09_ir
-        c09_ir.run(ctx, active)
+            preps = spine_a(ctx, active, 420, 6, 60)
+        ctx.log('spine A judged')
+        c09_ir.run_units(ctx, preps, 5 if ctx.quick else 80)
+        ctx.log('IR: generated functions vs Python codec and binary done')
+        for f, what in ((f_help, 'helpers: compiled helper block vs Coq model'), (f_hir, 'IR: parsed helper block vs Coq model')):
+            if f is not None:
+                f.result()
+                ctx.log(what + ' done')
+        ok = f_props.result()
+        ctx.log('Coq: Props/C09.v built and audited (%s)' % ('ok' if ok else 'BROKEN'))
+        ex.shutdown()
         if not ok:
             common.proof_broken(ctx)
     finally:
